@@ -49,6 +49,8 @@ const (
 	kfDup       = "KF-C24-1"
 	matcherCopy = "c24.crossCopyDropsMetadata"
 	kfCopy      = "KF-C24-2"
+	matcherSfx  = "c24.crossPartCopySuffixOfEmptySource"
+	kfSfx       = "KF-C24-3"
 )
 
 func genCase(t *rapid.T, env *ev.Env) Case {
@@ -218,6 +220,27 @@ func filter(d *dump.Dump, keep func(bucket string) bool) *dump.Dump {
 	return out
 }
 
+// rangedGet reads a range of an object directly (used to justify an InvalidRange answer).
+func rangedGet(st storage.Storage, bucket, key string, ver *string, r [2]int64) ([]byte, error) {
+	var br storage.ByteRange
+	if r[0] < 0 {
+		e := r[1]
+		br = storage.ByteRange{End: &e}
+	} else {
+		s, e := r[0], r[1]
+		br = storage.ByteRange{Start: &s, End: &e}
+	}
+	var opts *storage.GetObjectOptions
+	if ver != nil {
+		opts = &storage.GetObjectOptions{VersionID: ver}
+	}
+	_, readers, err := st.GetObject(context.Background(), storage.MustNewBucketName(bucket), storage.MustNewObjectKey(key), []storage.ByteRange{br}, opts)
+	if err != nil {
+		return nil, err
+	}
+	return prog.ReadAll(readers)
+}
+
 func bucketNames(bs []storage.Bucket) []string {
 	var out []string
 	for _, b := range bs {
@@ -355,6 +378,32 @@ func runCase(env *ev.Env, c Case) (o ev.Outcome) {
 	}
 
 	for i, op := range c.Ops {
+		// ETag-dependent conditions on a key whose ETag is legitimately incomparable between the two sides
+		// (destination of a cross-storage copy of a multipart-style source) would be decided differently by
+		// design: such conditions are dropped from the op (counted), the op itself still runs.
+		{
+			pc := sess.Resolve(op, 0)
+			if strings.HasPrefix(op.SrcCond, "im-") || strings.HasPrefix(op.SrcCond, "inm-") {
+				if etagTaint[pc.SrcBucket+"\x00"+pc.SrcKey] {
+					op.SrcCond = ""
+					o.Count("etag_condition_dropped_on_tainted_key", 1)
+				}
+			}
+			if (op.IfMatch == "cur" || op.IfMatch == "stale") && etagTaint[pc.Bucket+"\x00"+pc.Key] {
+				op.IfMatch = ""
+				o.Count("etag_condition_dropped_on_tainted_key", 1)
+			}
+			if len(op.Entries) > 0 {
+				es := append([]prog.DelSpec(nil), op.Entries...)
+				for j := range es {
+					if es[j].IfMatch != "" && j < len(pc.Entries) && etagTaint[pc.Bucket+"\x00"+pc.Entries[j].Key] {
+						es[j].IfMatch = ""
+						o.Count("etag_condition_dropped_on_tainted_key", 1)
+					}
+				}
+				op.Entries = es
+			}
+		}
 		sr := sess.Step(op)
 		cc := sr.Concrete
 		a, b := sr.Got[0], sr.Got[1]
@@ -405,6 +454,35 @@ func runCase(env *ev.Env, c Case) (o ev.Outcome) {
 		skipETag := etagTaint[dst] && (op.Kind == prog.OpCopy || op.Kind == prog.OpAppend || op.Kind == prog.OpHead || op.Kind == prog.OpGet || op.Kind == prog.OpMpuComplete)
 		skipMeta := metaTaint[dst]
 		diffs := cmpResults(op.Kind, a, b, skipETag, skipMeta)
+		// KF-C24-3: UploadPartCopy of a suffix range ("last n bytes") of an empty source succeeds inside one storage
+		// (an empty part) but fails with InvalidRange across storages (the source is read through GetObject).
+		if len(diffs) > 0 && cross && op.Kind == prog.OpMpuPartCopy && a.Err == prog.EInvalidRange && b.Err == "" && op.Range != nil && op.Range[0] < 0 && env.Known(matcherSfx) {
+			r := prog.NewStorageSide(twin.Storage).Do(prog.Concrete{Op: prog.Op{Kind: prog.OpHead}, Bucket: cc.SrcBucket, Key: cc.SrcKey, VersionID: sess.Resolve(op, 1).SrcVersionID})
+			if r.Obj != nil && r.Obj.Size == 0 {
+				o.KnownHits = append(o.KnownHits, kfSfx)
+				o.Excluded = true
+				return
+			}
+		}
+		// Don't-care: error precedence when two independent faults apply to a cross-storage UploadPartCopy at once
+		// (the upload does not exist AND the source range is unsatisfiable): the middleware reads the source first
+		// (InvalidRange), a single storage looks the upload up first (NoSuchKey). Both refuse, nothing changes.
+		if len(diffs) > 0 && cross && op.Kind == prog.OpMpuPartCopy && a.Err == prog.EInvalidRange && b.Err == prog.ENoSuchKey && op.Range != nil {
+			tc := sess.Resolve(op, 1)
+			_, rangeErr := rangedGet(twin.Storage, tc.SrcBucket, tc.SrcKey, tc.SrcVersionID, *op.Range)
+			uidT, e1 := storage.NewUploadId(tc.UploadID)
+			uidM, e2 := storage.NewUploadId(cc.UploadID)
+			unknown := false
+			if e1 == nil && e2 == nil {
+				_, lt := twin.Storage.ListParts(ctx, storage.MustNewBucketName(tc.Bucket), storage.MustNewObjectKey(tc.Key), uidT, storage.ListPartsOptions{MaxParts: 1})
+				_, lm := mw.ListParts(ctx, storage.MustNewBucketName(cc.Bucket), storage.MustNewObjectKey(cc.Key), uidM, storage.ListPartsOptions{MaxParts: 1})
+				unknown = lt != nil && lm != nil
+			}
+			if unknown && prog.Classify(rangeErr) == prog.EInvalidRange {
+				o.Count("dontcare:error_precedence_unknown_upload_vs_invalid_range", 1)
+				diffs = nil
+			}
+		}
 		if len(diffs) > 0 {
 			o.Failf("step %d (%s %s/%s src %s/%s cross=%v): middleware vs twin: %s", i, op.Kind, cc.Bucket, cc.Key, cc.SrcBucket, cc.SrcKey, cross, strings.Join(diffs, "; "))
 			return
@@ -465,6 +543,13 @@ func directed(env *ev.Env) []Case {
 			{Kind: prog.OpPut, B: 0, K: 0, Body: b(100, 1), ContentType: sp("text/plain"), Tags: map[string]string{"k": "v"}, Meta: &prog.Meta{CacheControl: sp("no-cache")}},
 			{Kind: prog.OpCopy, B: 1, K: 1, SB: 0, SK: 0},
 			{Kind: prog.OpGet, B: 1, K: 1},
+		}},
+		// KF-C24-3: cross-storage UploadPartCopy of a suffix range of an empty source
+		{Stacks: [3]string{"P1", "P2", "P1"}, Route: []int{1, 2, 0, 0}, Ops: []prog.Op{
+			{Kind: prog.OpCreateBucket, B: 0}, {Kind: prog.OpCreateBucket, B: 1},
+			{Kind: prog.OpPut, B: 0, K: 0, Body: b(0, 1)},
+			{Kind: prog.OpMpuCreate, B: 1, K: 1},
+			{Kind: prog.OpMpuPartCopy, Upload: prog.LastUpload, PartNo: 1, SB: 0, SK: 0, Range: &[2]int64{-1, 1}},
 		}},
 		// cross-storage UploadPartCopy
 		{Stacks: [3]string{"P1", "P2", "P1"}, Route: []int{1, 2, 0, 0}, Ops: []prog.Op{
